@@ -19,6 +19,7 @@
 package didnuts
 
 import (
+	"crypto/ecdsa"
 	"encoding/json"
 	"errors"
 	"fmt"
@@ -127,6 +128,14 @@ func (v verificationMethodValidator) verifyThumbprint(method *did.VerificationMe
 	}
 	if keyAsJWK == nil {
 		return errors.New("unable to get JWK: no key")
+	}
+	// the JWK library does not expect EC coordinates that are not a point on the curve (e.g. over-long values) when it calculates a thumbprint
+	var rawKey interface{}
+	if err := keyAsJWK.Raw(&rawKey); err != nil {
+		return fmt.Errorf("unable to get public key: %w", err)
+	}
+	if ecKey, ok := rawKey.(*ecdsa.PublicKey); ok && !ecKey.Curve.IsOnCurve(ecKey.X, ecKey.Y) {
+		return errors.New("public key is not a point on its curve")
 	}
 	// a "kid" member supplied with the key must not stand in for the thumbprint (AssignKeyID keeps an existing kid)
 	_ = keyAsJWK.Remove(jwk.KeyIDKey)
